@@ -83,8 +83,11 @@ def gen_cfg(rng, nadd=None, bad_prog=False, rich=True):
     return algs, allp
 
 
-def gen_script(rng, algs, allp, n=None, addrs=(5, 6, 7), adversarial=0.1, faults=0.05, stop=0.02):
+def gen_script(rng, algs, allp, n=None, addrs=None, adversarial=0.1, faults=0.05, stop=0.02):
     n = n or rng.randrange(1, 31)
+    if addrs is None:
+        # 0 is `Addr::default()` for the scripted transport: an address like any other
+        addrs = rng.choice([(5, 6, 7), (0, 5, 7), (5, 0), (0, 4294967295, 6)])
     live = {a: [] for a in addrs}     # sids believed live
     closed = {a: [] for a in addrs}
     items = []
